@@ -6,6 +6,9 @@ import vlib
 import cont_common as cc
 
 LEVEL = "model_checking"
+# record counts around the powers of two where a narrower count type would wrap; these images are built by the
+# harness from a rule and, above 1000 records, validated by TLC through a summary (count + sampled entries)
+COUNT_BOUNDS = ["255", "256", "257", "65535", "65536", "65537"]
 
 
 def run(ctx):
@@ -18,7 +21,8 @@ def run(ctx):
                 "with 4..7 files. spec->impl: arc::from_bytes on BinFormat!Canon(content) (and on the image mila's own "
                 "writer builds from the content when it differs, and for <= 2 files on a non-canonical image: reversed tables, "
                 "duplicated text section) compared with the reference extraction as a map, or "
-                "required to be Err, under the release (wrapping) AND the checked (panicking) build. impl->spec: seeded random arcs up to 60 files built by the harness plus ArcTest.arc; "
+                "required to be Err, under the release (wrapping) AND the checked (panicking) build. impl->spec: seeded random arcs up to 60 files built by the harness plus ArcTest.arc, plus rule-built arcs with "
+                "255/256/257 records (validated in full) and 65 535/65 536/65 537 records (count and sampled entries); "
                 "TLC decides conformance of the logged content and the allowed result. Non-trivial = at least one file "
                 "or a planted error.")
     binary = ctx.build("release", "mvh_cont")
@@ -55,7 +59,7 @@ def run(ctx):
     events = []
     for profile, b in (("release", binary), ("checked", checked)):
         ppath = ctx.path("arc_trace_%s.ndjson" % profile)
-        ctx.harness(b, ["arc-record", ppath, str(runs // 2), str(max_files)])
+        ctx.harness(b, ["arc-record", ppath, str(runs // 2), str(max_files)] + COUNT_BOUNDS)
         for e in vlib.read_ndjson(ppath):
             e["profile"] = profile
             events.append(e)
@@ -65,7 +69,10 @@ def run(ctx):
     rep = cc.validate(ctx, "Trace_Arc3ds", tpath, len(events))
     for b in rep["bad"]:
         ev = events[b["i"] - 1]
-        res = ev["result"]
+        res = dict(ev["result"])
+        if "sample" in res:
+            res["sample"] = [x for x in res["sample"] if not x["found"]][:5]
+            res["records"] = ev["desc"]["n"]
         ctx.violation({"dir": "impl->spec", "profile": ev["profile"], "failed": b["why"], "src": ev["src"], "layout": ev["kind"],
                        "result": {k: res[k] for k in res if k != "files"}, "files_returned": len(res.get("files", []))},
                       cc.event_detail(ev, b["i"]))
@@ -84,6 +91,11 @@ def run(ctx):
                                    "files": len(events[1]["result"].get("files", []))}})
     ctx.exhaustive = True
     ctx.assumptions += ["bounded model: 0..3 files exhaustively (see rule); larger arcs only by seeded sampling",
+                        "arcs with ~2^16 records are built by the harness's layout builder (the one whose small outputs TLC "
+                        "validates in full) from the naming rule BigName/BigBody; TLC checks the number of entries returned and "
+                        "a sample (first, last, every 4099th, indices around 2^8 and 2^16): the middle of such an image is only sampled",
+                        "every compared parse is preceded, on the same thread, by failing parses of truncated copies of the same "
+                        "image (a parse result must depend on the image alone)",
                         "file images are BinFormat!Canon(content) as specified in spec/BinFormat.tla (C01/C02); random arcs "
                         "are turned into bytes by mila's own BinArchive writer (proj::build + serialize), which C01/C02 check",
                         "any Err is accepted for an error layout (the statement does not name the error kinds)",
